@@ -43,7 +43,7 @@ def run(ctx):
     try:
         # the dedicated family: equal timestamps, more than a dozen updates per parent
         fam = vlib.tlc_gen(ctx, "OsmHistoryFamily", "OsmHistoryFamily_q.cfg" if quick else "OsmHistoryFamily_t.cfg")
-        cases = c11.make_cases(ctx, fam, c11.FAM_OPTS, runs=R, per_history=2, salt=99)
+        cases = c11.make_cases(ctx, fam, c11.FAM_OPTS, runs=R, per_history=2, salt=99, reann=True)
         vlib.log("  family: %d histories -> %d cases x %d runs" % (len(fam), len(cases), R))
         total += len(cases)
         c11.run_and_judge(ctx, binpath, cases, "c12", chunk=20000)
@@ -51,7 +51,7 @@ def run(ctx):
         for n, (cfg, per) in enumerate(GEN_QUICK if quick else GEN_THOROUGH):
             hs, opts = c11.gen_histories(ctx, cfg, workers=4)
             Rm = R if quick else 10      # machine histories: fewer repetitions than the family / random ones
-            cases = c11.make_cases(ctx, hs, opts, runs=Rm, per_history=per, salt=200 + n)
+            cases = c11.make_cases(ctx, hs, opts, runs=Rm, per_history=per, salt=200 + n, reann=True)
             vlib.log("  %s: %d histories -> %d cases x %d runs" % (cfg, len(hs), len(cases), Rm))
             total += len(cases)
             pool += prng.sample(cases, min(len(cases), 600))
@@ -64,7 +64,7 @@ def run(ctx):
         vlib.log("  sequences: %d call histories x %d calls" % (len(seqs), len(seqs[0]["steps"])))
         c11.run_sequences(ctx, binpath, seqs, "seq12")
         ctx.extra["call_sequences"] = len(seqs)
-        rc = c11.random_cases(ctx, binpath, 400 if quick else 3000, runs=R, kids=10, vers=6, pars=4)
+        rc = c11.random_cases(ctx, binpath, 400 if quick else 3000, runs=R, kids=10, vers=6, pars=4, reann=True)
         c11.run_and_judge(ctx, binpath, rc, "c12", chunk=20000)
     finally:
         join()
